@@ -1,0 +1,18 @@
+//go:build verif
+
+// Contracts for the root package (comment-only; read by /verif/govc).
+
+package mangos
+
+//@ interface ProtocolPipe.RecvMsg
+//@   nullable result
+//@
+//@ interface ProtocolPipe.ID
+//@   pure
+//@
+//@ struct Message
+//@   atomic: refcnt
+//@   immutable: bbuf hbuf bsize
+//@
+//@ interface ProtocolPipe.GetPrivate
+//@   pure
